@@ -79,13 +79,13 @@ def enc_kernel_case(p, n_cues, all_outcomes, start, stop, files, cells, rows, co
     return (202, out)
 
 
-def compare_tables(model, impl, scale_hint=1):
+def compare_tables(model, impl, scale_hint=1, missing_is_zero=False):
     """model, impl: {(o,c): Fraction}.  Returns (n_exact, n_rounded, first mismatch or None)."""
     scale = max([abs(Fraction(scale_hint)), 1] + [abs(v) for v in model.values()])
     n_exact = n_round = 0
     worst = None
     for k, mv in model.items():
-        iv = impl.get(k)
+        iv = impl.get(k, Fraction(0) if missing_is_zero else None)
         if iv is None:
             return n_exact, n_round, {"cell": list(k), "model": str(mv), "impl": "missing"}
         if iv == mv:
@@ -145,8 +145,8 @@ def gen_events(rng, n_events, n_cue_alpha=8, n_out_alpha=5, max_cues=6, max_outs
     es = []
     for k in range(n_events):
         in_last_third = k >= (2 * n_events) // 3
-        pool_c = cues if (in_last_third or not late) else cues[:-2]
-        pool_o = outs if (in_last_third or not late) else outs[:-1]
+        pool_c = cues if (in_last_third or not late or len(cues) < 4) else cues[:-2]
+        pool_o = outs if (in_last_third or not late or len(outs) < 2) else outs[:-1]
         nc = rng.randint(1, max_cues)
         cs = [rng.choice(pool_c) for _ in range(nc)]
         if not dups:
